@@ -1,10 +1,11 @@
 //! C12 — sparse kernels: triangular solve, Schur complement, direct-sum splitting
 use crate::ctx::Rel;
 use crate::explore::{Harness, InputSpec};
+use crate::props::c09::RingSel;
 use crate::util::*;
 use crate::vint::{VInt, VIntOps, VF};
 use num_traits::{One, Zero};
-use yui::{Ring, RingOps};
+use yui::{GaussInt, Ratio, Ring, RingOps};
 use yui_matrix::sparse::decomp::dir_sum_decomp;
 use yui_matrix::sparse::schur::Schur;
 use yui_matrix::sparse::triang::{inv_triangular, solve_triangular, solve_triangular_left, solve_triangular_vec, TriangularType};
@@ -19,6 +20,7 @@ pub enum Kind {
 }
 
 pub struct Kernels {
+    pub ring: RingSel,
     pub kind: Kind,
     pub upper: bool,
     pub r: usize,
@@ -28,11 +30,11 @@ pub struct Kernels {
     pub b: i64,
 }
 
-fn tri_grid<I: VInt>(upper: bool, r: usize, diag: &[I], strict: &[I]) -> Grid<I>
+fn tri_grid<R: Ring>(upper: bool, r: usize, diag: &[R], strict: &[R]) -> Grid<R>
 where
-    for<'x> &'x I: VIntOps<I>,
+    for<'x> &'x R: RingOps<R>,
 {
-    let mut g: Grid<I> = (0..r).map(|_| (0..r).map(|_| I::zero()).collect()).collect();
+    let mut g: Grid<R> = (0..r).map(|_| (0..r).map(|_| R::zero()).collect()).collect();
     let mut k = 0;
     for i in 0..r {
         g[i][i] = diag[i].clone();
@@ -46,9 +48,9 @@ where
     g
 }
 
-fn sp_from<I: VInt>(g: &Grid<I>, m: usize, n: usize, stored_zeros: bool, upper: Option<bool>) -> SpMat<I>
+fn sp_from<R: Ring + nalgebra_scalar::Sc>(g: &Grid<R>, m: usize, n: usize, stored_zeros: bool, upper: Option<bool>) -> SpMat<R>
 where
-    for<'x> &'x I: VIntOps<I>,
+    for<'x> &'x R: RingOps<R>,
 {
     if !stored_zeros {
         return grid_to_sp(g, m, n);
@@ -63,6 +65,10 @@ where
     }))
 }
 
+fn build_grid_r<R: Clone>(m: usize, n: usize, xs: &[R]) -> Grid<R> {
+    (0..m).map(|i| (0..n).map(|j| xs[i * n + j].clone()).collect()).collect()
+}
+
 fn grid_sub<R: Ring>(a: &Grid<R>, b: &Grid<R>) -> Grid<R>
 where
     for<'x> &'x R: RingOps<R>,
@@ -74,10 +80,16 @@ impl Kernels {
     fn n_strict(&self) -> usize {
         self.r * (self.r.saturating_sub(1)) / 2
     }
-    fn run<I: VInt>(&self, xs: &[I])
+    fn run<I, R>(&self, xs: &[I])
     where
+        I: VInt,
         for<'x> &'x I: VIntOps<I>,
+        R: VRing<I> + nalgebra_scalar::Sc + std::fmt::Display + Send + Sync,
+        for<'x> &'x R: RingOps<R>,
     {
+        // all inputs are consumed R::ARITY at a time
+        let xs: Vec<R> = xs.chunks(R::ARITY).map(|c| R::build(c)).collect();
+        let xs = &xs[..];
         let r = self.r;
         let t = if self.upper { TriangularType::Upper } else { TriangularType::Lower };
         match self.kind {
@@ -88,35 +100,35 @@ impl Kernels {
                 let rest = &xs[r + self.n_strict()..];
                 let ga = tri_grid(self.upper, r, diag, strict);
                 let a = sp_from(&ga, r, r, self.stored_zeros, Some(self.upper));
-                let gy: Grid<I> = build_grid::<I, I>(r, k, &rest[..r * k]);
-                let gy2: Grid<I> = build_grid::<I, I>(r, k, &rest[r * k..2 * r * k]);
-                let gz: Grid<I> = build_grid::<I, I>(k, r, &rest[2 * r * k..3 * r * k]);
-                let gv: Vec<I> = rest[3 * r * k..3 * r * k + r].to_vec();
+                let gy: Grid<R> = build_grid_r::<R>(r, k, &rest[..r * k]);
+                let gy2: Grid<R> = build_grid_r::<R>(r, k, &rest[r * k..2 * r * k]);
+                let gz: Grid<R> = build_grid_r::<R>(k, r, &rest[2 * r * k..3 * r * k]);
+                let gv: Vec<R> = rest[3 * r * k..3 * r * k + r].to_vec();
                 // two consecutive solves on the same worker: the scratch buffer must come back to zero in between
                 for (round, g) in [&gy, &gy2].into_iter().enumerate() {
                     let y = sp_from(g, r, k, self.stored_zeros && round == 0, None);
                     let x = solve_triangular(t, &a, &y);
                     I::oblige("X shape", VF::of_bool(x.shape() == (r, k)));
                     if x.shape() == (r, k) && r > 0 && k > 0 {
-                        oblige_grid_eq::<I, I>(&format!("A X = Y (solve #{})", round), &grid_mul(&ga, &sp_to_grid(&x), r, k), g);
+                        oblige_grid_eq::<I, R>(&format!("A X = Y (solve #{})", round), &grid_mul(&ga, &sp_to_grid(&x), r, k), g);
                     }
                 }
                 let z = grid_to_sp(&gz, k, r);
                 let xl = solve_triangular_left(t, &a, &z);
                 I::oblige("X shape (left)", VF::of_bool(xl.shape() == (k, r)));
                 if xl.shape() == (k, r) && r > 0 && k > 0 {
-                    oblige_grid_eq::<I, I>("X A = Y (left solve)", &grid_mul(&sp_to_grid(&xl), &ga, r, r), &gz);
+                    oblige_grid_eq::<I, R>("X A = Y (left solve)", &grid_mul(&sp_to_grid(&xl), &ga, r, r), &gz);
                 }
                 let v = SpVec::from(gv.clone());
                 let xv = solve_triangular_vec(t, &a, &v).to_dense();
                 for i in 0..r {
-                    let s = (0..r).fold(I::zero(), |s, j| &s + &(&ga[i][j] * &xv[j]));
-                    I::oblige(&format!("A x = v [{}]", i), VF::zero(&s - &gv[i]));
+                    let s = (0..r).fold(R::zero(), |s, j| &s + &(&ga[i][j] * &xv[j]));
+                    oblige_zero::<I, R>(&format!("A x = v [{}]", i), &(&s - &gv[i]));
                 }
                 let inv = inv_triangular(t, &a);
                 if r > 0 {
-                    oblige_grid_eq::<I, I>("A Ainv = I", &grid_mul(&ga, &sp_to_grid(&inv), r, r), &grid_id::<I>(r));
-                    oblige_grid_eq::<I, I>("Ainv A = I", &grid_mul(&sp_to_grid(&inv), &ga, r, r), &grid_id::<I>(r));
+                    oblige_grid_eq::<I, R>("A Ainv = I", &grid_mul(&ga, &sp_to_grid(&inv), r, r), &grid_id::<R>(r));
+                    oblige_grid_eq::<I, R>("Ainv A = I", &grid_mul(&sp_to_grid(&inv), &ga, r, r), &grid_id::<R>(r));
                 }
             }
             Kind::Schur => {
@@ -125,10 +137,10 @@ impl Kernels {
                 let strict = &xs[r..r + self.n_strict()];
                 let rest = &xs[r + self.n_strict()..];
                 let ga = tri_grid(self.upper, r, diag, strict);
-                let gb: Grid<I> = build_grid::<I, I>(r, n - r, &rest[..r * (n - r)]);
-                let gc: Grid<I> = build_grid::<I, I>(m - r, r, &rest[r * (n - r)..r * (n - r) + (m - r) * r]);
-                let gd: Grid<I> = build_grid::<I, I>(m - r, n - r, &rest[r * (n - r) + (m - r) * r..]);
-                let mut gm: Grid<I> = Vec::new();
+                let gb: Grid<R> = build_grid_r::<R>(r, n - r, &rest[..r * (n - r)]);
+                let gc: Grid<R> = build_grid_r::<R>(m - r, r, &rest[r * (n - r)..r * (n - r) + (m - r) * r]);
+                let gd: Grid<R> = build_grid_r::<R>(m - r, n - r, &rest[r * (n - r) + (m - r) * r..]);
+                let mut gm: Grid<R> = Vec::new();
                 for i in 0..r {
                     gm.push(ga[i].iter().chain(gb[i].iter()).cloned().collect());
                 }
@@ -154,41 +166,41 @@ impl Kernels {
                     I::oblige("trans dims", VF::of_bool(ts.src_dim() == n && ts.tgt_dim() == n - r && tt.src_dim() == m && tt.tgt_dim() == m - r));
                     // S = D - C A^-1 B  <=>  with X := -(top block of B_src):  A X = B  and  S = D - C X
                     if r > 0 && n > r {
-                        let x: Grid<I> = (0..r).map(|i| bs[i].iter().map(|e| -e).collect()).collect();
-                        oblige_grid_eq::<I, I>(&format!("A X = B (round {})", round), &grid_mul(&ga, &x, r, n - r), &gb);
+                        let x: Grid<R> = (0..r).map(|i| bs[i].iter().map(|e| -e).collect()).collect();
+                        oblige_grid_eq::<I, R>(&format!("A X = B (round {})", round), &grid_mul(&ga, &x, r, n - r), &gb);
                         if m > r {
-                            oblige_grid_eq::<I, I>(&format!("S = D - C X (round {})", round), &grid_sub(&gd, &grid_mul(&gc, &x, r, n - r)), &s);
+                            oblige_grid_eq::<I, R>(&format!("S = D - C X (round {})", round), &grid_sub(&gd, &grid_mul(&gc, &x, r, n - r)), &s);
                         }
                     } else if m > r && n > r {
-                        oblige_grid_eq::<I, I>("S = D (r = 0)", &gd, &s);
+                        oblige_grid_eq::<I, R>("S = D (r = 0)", &gd, &s);
                     }
                     // F_tgt M B_src = S ;  F B = I on both sides
                     if m > r && n > r {
                         let fm = grid_mul(&ft, &gm, m, n);
-                        oblige_grid_eq::<I, I>(&format!("F_tgt M B_src = S (round {})", round), &grid_mul(&fm, &bs, n, n - r), &s);
+                        oblige_grid_eq::<I, R>(&format!("F_tgt M B_src = S (round {})", round), &grid_mul(&fm, &bs, n, n - r), &s);
                     }
                     if n > r {
-                        oblige_grid_eq::<I, I>("F_src B_src = I", &grid_mul(&fs, &bs, n, n - r), &grid_id::<I>(n - r));
+                        oblige_grid_eq::<I, R>("F_src B_src = I", &grid_mul(&fs, &bs, n, n - r), &grid_id::<R>(n - r));
                     }
                     if m > r {
-                        oblige_grid_eq::<I, I>("F_tgt B_tgt = I", &grid_mul(&ft, &bt, m, m - r), &grid_id::<I>(m - r));
+                        oblige_grid_eq::<I, R>("F_tgt B_tgt = I", &grid_mul(&ft, &bt, m, m - r), &grid_id::<R>(m - r));
                     }
                 }
             }
             Kind::Decomp => {
                 let (m, n) = (self.m, self.n);
-                let g: Grid<I> = build_grid::<I, I>(m, n, xs);
+                let g: Grid<R> = build_grid_r::<R>(m, n, xs);
                 let a = if self.stored_zeros { sp_from(&g, m, n, true, None) } else { grid_to_sp(&g, m, n) };
                 let (p, q, blocks) = dir_sum_decomp(a.clone());
                 // reference permuted matrix: entry (i, j) -> (p(i), q(j))
-                let mut want: Grid<I> = (0..m).map(|_| (0..n).map(|_| I::zero()).collect()).collect();
+                let mut want: Grid<R> = (0..m).map(|_| (0..n).map(|_| R::zero()).collect()).collect();
                 for i in 0..m {
                     for j in 0..n {
                         want[p.view().at(i)][q.view().at(j)] = g[i][j].clone();
                     }
                 }
                 // block-diagonal sum of the returned blocks, padded with zero rows / columns
-                let mut sum: Grid<I> = (0..m).map(|_| (0..n).map(|_| I::zero()).collect()).collect();
+                let mut sum: Grid<R> = (0..m).map(|_| (0..n).map(|_| R::zero()).collect()).collect();
                 let (mut r0, mut c0) = (0, 0);
                 let mut fits = true;
                 for bl in &blocks {
@@ -208,7 +220,7 @@ impl Kernels {
                 }
                 I::oblige("blocks fit into the matrix", VF::of_bool(fits));
                 if fits && m > 0 && n > 0 {
-                    oblige_grid_eq::<I, I>("permuted matrix = direct sum of blocks", &want, &sum);
+                    oblige_grid_eq::<I, R>("permuted matrix = direct sum of blocks", &want, &sum);
                 }
                 // no block splits further when no explicit zero is stored: each block's bipartite row/column graph is connected
                 if !self.stored_zeros {
@@ -247,7 +259,7 @@ impl Kernels {
 
 impl Harness for Kernels {
     fn id(&self) -> String {
-        format!("kernels/{:?}/{}/r{}/{}x{}/{}B{}", self.kind, if self.upper { "upper" } else { "lower" }, self.r, self.m, self.n, if self.stored_zeros { "stored0/" } else { "" }, self.b)
+        format!("kernels/{:?}/{:?}/{}/r{}/{}x{}/{}B{}", self.ring, self.kind, if self.upper { "upper" } else { "lower" }, self.r, self.m, self.n, if self.stored_zeros { "stored0/" } else { "" }, self.b)
     }
     fn functions(&self) -> Vec<&'static str> {
         match self.kind {
@@ -256,7 +268,31 @@ impl Harness for Kernels {
             Kind::Decomp => vec!["decomp::{dir_sum_decomp,dir_sum_indices,group_cols,col_intersects,rows_in,decomp_by}", "util::perm_for_indices", "yui::UnionFind"],
         }
     }
+    fn pre<I: VInt>(&self, xs: &[I])
+    where
+        for<'x> &'x I: VIntOps<I>,
+    {
+        self.pre_impl::<I>(xs)
+    }
+    fn body<I: VInt>(&self, xs: &[I])
+    where
+        for<'x> &'x I: VIntOps<I>,
+    {
+        self.body_impl::<I>(xs)
+    }
     fn inputs(&self) -> Vec<InputSpec> {
+        let v = self.inputs_z();
+        match self.ring {
+            RingSel::Gauss => v.into_iter().flat_map(|s| [InputSpec { name: format!("{}r", s.name), ..s.clone() }, InputSpec { name: format!("{}i", s.name), ..s.clone() }]).collect(),
+            // Q: diagonal entries are arbitrary non-zero integers (units of Q) within the box
+            RingSel::Q => v.into_iter().map(|s| if s.name.starts_with('u') { InputSpec::boxed(&s.name, self.b.max(2)) } else { s }).collect(),
+            _ => v,
+        }
+    }
+}
+
+impl Kernels {
+    fn inputs_z(&self) -> Vec<InputSpec> {
         let r = self.r;
         let mut v = Vec::new();
         match self.kind {
@@ -290,22 +326,35 @@ impl Harness for Kernels {
         }
         v
     }
-    fn pre<I: VInt>(&self, xs: &[I])
+}
+
+impl Kernels {
+    fn pre_impl<I: VInt>(&self, xs: &[I])
     where
         for<'x> &'x I: VIntOps<I>,
     {
         if self.kind != Kind::Decomp {
             for i in 0..self.r {
-                // diagonal entries are units of Z
-                I::assume(VF::zero(&(&xs[i] * &xs[i]) - &I::one()));
+                match self.ring {
+                    // units of Z: u^2 = 1
+                    RingSel::Z => I::assume(VF::zero(&(&xs[i] * &xs[i]) - &I::one())),
+                    // units of Z[i]: norm a^2 + b^2 = 1
+                    RingSel::Gauss => I::assume(VF::zero(&(&(&xs[2 * i] * &xs[2 * i]) + &(&xs[2 * i + 1] * &xs[2 * i + 1])) - &I::one())),
+                    // units of Q: non-zero
+                    _ => I::assume(VF::nonzero(xs[i].clone())),
+                }
             }
         }
     }
-    fn body<I: VInt>(&self, xs: &[I])
+    fn body_impl<I: VInt>(&self, xs: &[I])
     where
         for<'x> &'x I: VIntOps<I>,
     {
-        self.run::<I>(xs)
+        match self.ring {
+            RingSel::Z => self.run::<I, I>(xs),
+            RingSel::Gauss => self.run::<I, GaussInt<I>>(xs),
+            _ => self.run::<I, Ratio<I>>(xs),
+        }
     }
 }
 
@@ -315,27 +364,36 @@ pub fn configs(tier: crate::registry::Tier, _seed: u64) -> Vec<crate::registry::
     for upper in [true, false] {
         for stored_zeros in [false, true] {
             for (r, k) in [(1, 1), (2, 1), (2, 2), (3, 1)] {
-                v.push(entry(Kernels { kind: Kind::Solve, upper, r, m: k, n: 0, stored_zeros, b: 2 }, 1500, 90.0));
+                v.push(entry(Kernels { ring: RingSel::Z, kind: Kind::Solve, upper, r, m: k, n: 0, stored_zeros, b: 2 }, 1500, 90.0));
             }
             for (r, m, n) in [(0, 2, 2), (1, 2, 2), (2, 2, 2), (1, 3, 2), (2, 3, 3), (1, 1, 3), (2, 2, 3)] {
-                v.push(entry(Kernels { kind: Kind::Schur, upper, r, m, n, stored_zeros, b: 2 }, 1500, 90.0));
+                v.push(entry(Kernels { ring: RingSel::Z, kind: Kind::Schur, upper, r, m, n, stored_zeros, b: 2 }, 1500, 90.0));
             }
         }
     }
-    v.push(entry(Kernels { kind: Kind::Solve, upper: true, r: 0, m: 1, n: 0, stored_zeros: false, b: 1 }, 5, 5.0));
+    v.push(entry(Kernels { ring: RingSel::Z, kind: Kind::Solve, upper: true, r: 0, m: 1, n: 0, stored_zeros: false, b: 1 }, 5, 5.0));
     for stored_zeros in [false, true] {
         for (m, n) in [(2, 2), (2, 3), (3, 2), (3, 3), (1, 3), (0, 2), (2, 0)] {
-            v.push(entry(Kernels { kind: Kind::Decomp, upper: false, r: 0, m, n, stored_zeros, b: 1 }, 2000, 90.0));
+            v.push(entry(Kernels { ring: RingSel::Z, kind: Kind::Decomp, upper: false, r: 0, m, n, stored_zeros, b: 1 }, 2000, 90.0));
+        }
+    }
+    // units other than +-1: Z[i] (units +-1, +-i as a solver-side precondition) and Q (any non-zero diagonal)
+    for ring in [RingSel::Gauss, RingSel::Q] {
+        for upper in [true, false] {
+            v.push(entry(Kernels { ring, kind: Kind::Solve, upper, r: 2, m: 2, n: 0, stored_zeros: false, b: 1 }, 400, 90.0));
+            v.push(entry(Kernels { ring, kind: Kind::Solve, upper, r: 1, m: 2, n: 0, stored_zeros: true, b: 2 }, 400, 60.0));
+            v.push(entry(Kernels { ring, kind: Kind::Schur, upper, r: 1, m: 2, n: 2, stored_zeros: false, b: 1 }, 400, 90.0));
+            v.push(entry(Kernels { ring, kind: Kind::Schur, upper, r: 2, m: 3, n: 3, stored_zeros: false, b: 1 }, 400, 120.0));
         }
     }
     if tier == Tier::Thorough {
         for upper in [true, false] {
-            v.push(entry(Kernels { kind: Kind::Solve, upper, r: 3, m: 2, n: 0, stored_zeros: false, b: 3 }, 20000, 900.0));
-            v.push(entry(Kernels { kind: Kind::Schur, upper, r: 2, m: 4, n: 4, stored_zeros: false, b: 2 }, 20000, 900.0));
-            v.push(entry(Kernels { kind: Kind::Schur, upper, r: 3, m: 4, n: 4, stored_zeros: true, b: 2 }, 20000, 900.0));
+            v.push(entry(Kernels { ring: RingSel::Z, kind: Kind::Solve, upper, r: 3, m: 2, n: 0, stored_zeros: false, b: 3 }, 20000, 900.0));
+            v.push(entry(Kernels { ring: RingSel::Z, kind: Kind::Schur, upper, r: 2, m: 4, n: 4, stored_zeros: false, b: 2 }, 20000, 900.0));
+            v.push(entry(Kernels { ring: RingSel::Z, kind: Kind::Schur, upper, r: 3, m: 4, n: 4, stored_zeros: true, b: 2 }, 20000, 900.0));
         }
-        v.push(entry(Kernels { kind: Kind::Decomp, upper: false, r: 0, m: 3, n: 4, stored_zeros: false, b: 1 }, 20000, 900.0));
-        v.push(entry(Kernels { kind: Kind::Decomp, upper: false, r: 0, m: 4, n: 3, stored_zeros: true, b: 1 }, 20000, 900.0));
+        v.push(entry(Kernels { ring: RingSel::Z, kind: Kind::Decomp, upper: false, r: 0, m: 3, n: 4, stored_zeros: false, b: 1 }, 20000, 900.0));
+        v.push(entry(Kernels { ring: RingSel::Z, kind: Kind::Decomp, upper: false, r: 0, m: 4, n: 3, stored_zeros: true, b: 1 }, 20000, 900.0));
     }
     v
 }
